@@ -683,6 +683,11 @@ func (vs *ValidatorSet) VerifyCommit(chainID string, blockID BlockID, height uin
 		// The vals and commit have a 1-to-1 correspondance.
 		// This means we don't need the validator address or to do any lookup.
 		val := vs.Validators[idx]
+		// The sign bytes do not cover the address, but the block time is weighted by it
+		// (MedianTime looks validators up by address): it must name the slot's validator.
+		if !commitSig.ValidatorAddress.Equal(val.Address) {
+			return errors.Errorf("wrong validator address (#%d): got %X, want %X", idx, commitSig.ValidatorAddress, val.Address)
+		}
 
 		// Validate signature.
 		signBytes := commit.VoteSignBytes(chainID, uint32(idx))
